@@ -19,17 +19,18 @@ require (
 	github.com/gogo/protobuf v1.3.1 // indirect
 	github.com/golang/snappy v0.0.1 // indirect
 	github.com/pkg/errors v0.8.1 // indirect
-	github.com/sirupsen/logrus v1.5.0 // indirect
+	github.com/shirou/gopsutil v2.20.5+incompatible // indirect
 	golang.org/x/net v0.0.0-20190620200207-3b0461eec859 // indirect
 	golang.org/x/sys v0.0.0-20190626221950-04f50cda93cb // indirect
 	golang.org/x/text v0.3.0 // indirect
 	google.golang.org/genproto v0.0.0-20190819201941-24fa4b261c55 // indirect
-	google.golang.org/grpc v1.28.0 // indirect
 )
 
 require (
 	github.com/klauspost/cpuid v1.2.3
 	github.com/satori/go.uuid v1.2.0
+	github.com/sirupsen/logrus v1.5.0
+	google.golang.org/grpc v1.28.0
 )
 
 replace github.com/marekgalovic/anndb => /repo
